@@ -183,6 +183,9 @@ pub enum CrashAt {
     AfterFileBytes(usize),
     /// the process dies after main returned (result durable, status lost)
     AtExit,
+    /// the process dies right after its n-th mutation of the file system (0-based; creations,
+    /// truncations, writes, renames, removals count) - wherever that falls in its commit protocol
+    AfterFsOps(u32),
 }
 
 // ---------------------------------------------------------------------------
@@ -238,6 +241,7 @@ pub struct World {
     pub file_bytes_written: usize,
     pub eintr_streak: u32,
     pub log_dropped: u64,
+    pub fs_ops: u32,
     pub log_hash: u64,
     pub logbuf: String,
 }
@@ -314,6 +318,12 @@ fn clock_peek() -> (i64, i64) {
 }
 
 impl World {
+    /// Counts one mutation of the file system; true = the crash point has been reached.
+    fn fs_op(&mut self) -> bool {
+        let n = self.fs_ops;
+        self.fs_ops += 1;
+        matches!(self.plan.crash, Some(CrashAt::AfterFsOps(k)) if k == n)
+    }
     fn touch(&mut self, path: &str) {
         self.mtimes.insert(path.to_string(), clock_peek());
     }
@@ -516,6 +526,7 @@ pub mod simstd {
                         crash("before_open_write");
                     }
                 }
+                let mut die_after_op = false;
                 let res: io::Result<File> = with_world(|w| {
                     if let Some(HardFault::Eacces(p)) = &w.plan.hard {
                         if *p == path {
@@ -538,6 +549,7 @@ pub mod simstd {
                             w.touch(&path);
                             crate::world::mirror_put(&path, b"");
                             ev!(w, "create {}", path);
+                            die_after_op = w.fs_op();
                         } else {
                             w.bump("enoent_fired");
                             ev!(w, "open {} -> ENOENT", path);
@@ -549,6 +561,7 @@ pub mod simstd {
                         w.touch(&path);
                         crate::world::mirror_put(&path, b"");
                         ev!(w, "truncate {} (was {} bytes)", path, old);
+                        die_after_op = w.fs_op();
                     } else {
                         ev!(w, "open {} ({})", path, if writing { "w" } else { "r" });
                     }
@@ -565,6 +578,9 @@ pub mod simstd {
                     if c == Some(CrashAt::AfterOpenWrite) {
                         crash("after_open_write");
                     }
+                }
+                if die_after_op {
+                    crash("after_fs_op");
                 }
                 res
             }
@@ -694,11 +710,13 @@ pub mod simstd {
                 w.file_bytes_written += n;
                 let p = f.path.clone();
                 w.touch(&p);
-                Ok((n, die))
+                let die_op = w.fs_op();
+                Ok((n, die, die_op))
             });
             match r {
-                Ok((_, true)) => crash("mid_write"),
-                Ok((n, false)) => Ok(n),
+                Ok((_, true, _)) => crash("mid_write"),
+                Ok((_, false, true)) => crash("after_fs_op"),
+                Ok((n, false, false)) => Ok(n),
                 Err(e) => Err(e),
             }
         }
@@ -803,33 +821,46 @@ pub mod simstd {
 
         pub fn remove_file<P: AsRef<::std::path::Path>>(path: P) -> io::Result<()> {
             let path = crate::world::norm_path(&path.as_ref().to_string_lossy());
-            with_world(|w| {
+            let r = with_world(|w| {
                 ev!(w, "unlink {}", path);
                 match w.fs.remove(&path) {
                     Some(_) => {
                         crate::world::mirror_remove(&path);
-                        Ok(())
+                        Ok(w.fs_op())
                     }
                     None => Err(io::Error::from_raw_os_error(libc::ENOENT)),
                 }
-            })
+            });
+            match r {
+                Ok(true) => crash("after_fs_op"),
+                Ok(false) => Ok(()),
+                Err(e) => Err(e),
+            }
         }
 
         pub fn rename<P: AsRef<::std::path::Path>, Q: AsRef<::std::path::Path>>(from: P, to: Q) -> io::Result<()> {
             let from = crate::world::norm_path(&from.as_ref().to_string_lossy());
             let to = crate::world::norm_path(&to.as_ref().to_string_lossy());
-            with_world(|w| {
+            let r = with_world(|w| {
                 ev!(w, "rename {} {}", from, to);
                 match w.fs.remove(&from) {
                     Some(v) => {
                         crate::world::mirror_remove(&from);
                         crate::world::mirror_put(&to, &v);
+                        if let Some(m) = w.mtimes.remove(&from) {
+                            w.mtimes.insert(to.clone(), m);
+                        }
                         w.fs.insert(to, v);
-                        Ok(())
+                        Ok(w.fs_op())
                     }
                     None => Err(io::Error::from_raw_os_error(libc::ENOENT)),
                 }
-            })
+            });
+            match r {
+                Ok(true) => crash("after_fs_op"),
+                Ok(false) => Ok(()),
+                Err(e) => Err(e),
+            }
         }
 
         pub fn create_dir_all<P: AsRef<::std::path::Path>>(_path: P) -> io::Result<()> {
